@@ -1,16 +1,19 @@
-/* storage.h -- contracts for src/storage.c (harness includes "src/storage.c" first) */
+/* storage.h -- contracts for src/storage.c (harness includes "src/storage.c" or declarations first) */
 #ifndef VERIF_C_STORAGE_H
 #define VERIF_C_STORAGE_H
 
-#define IMG_ENS(i) __CPROVER_ensures(storage[(i)] == spec_image(data, (i)))
-#define IMG_ENS8(b) IMG_ENS(b) IMG_ENS(b+1) IMG_ENS(b+2) IMG_ENS(b+3) IMG_ENS(b+4) IMG_ENS(b+5) IMG_ENS(b+6) IMG_ENS(b+7)
+static inline bool spec_image_matches(polyseed_data s, const uint8_t* b) {
+    bool r = true;
+    for (unsigned i = 0; i < 32; ++i) r = r && (b[i] == spec_image(&s, i));
+    return r;
+}
 
 void polyseed_data_store(const polyseed_data* data, polyseed_storage storage)
     __CPROVER_requires(__CPROVER_is_fresh(data, sizeof(*data)))
     __CPROVER_requires(__CPROVER_is_fresh(storage, 32))
-    __CPROVER_requires(spec_shape(data) && data->checksum < 2048)
+    __CPROVER_requires(spec_shape_v(*data) && data->checksum < 2048)
     __CPROVER_assigns(__CPROVER_object_whole(storage))
-    IMG_ENS8(0) IMG_ENS8(8) IMG_ENS8(16) IMG_ENS8(24);
+    __CPROVER_ensures(spec_image_matches(*data, storage));
 
 polyseed_status polyseed_data_load(const polyseed_storage storage, polyseed_data* data)
     __CPROVER_requires(__CPROVER_is_fresh(storage, 32))
@@ -18,9 +21,7 @@ polyseed_status polyseed_data_load(const polyseed_storage storage, polyseed_data
     __CPROVER_assigns(__CPROVER_object_whole(data))
     __CPROVER_ensures(__CPROVER_return_value == POLYSEED_OK || __CPROVER_return_value == POLYSEED_ERR_FORMAT)
     __CPROVER_ensures((__CPROVER_return_value == POLYSEED_OK) == spec_wellformed(storage))
-    __CPROVER_ensures(__CPROVER_return_value != POLYSEED_OK || (spec_shape(data) && data->checksum < 2048))
-#define LD_ENS(i) __CPROVER_ensures(__CPROVER_return_value != POLYSEED_OK || storage[(i)] == spec_image(data, (i)))
-#define LD_ENS8(b) LD_ENS(b) LD_ENS(b+1) LD_ENS(b+2) LD_ENS(b+3) LD_ENS(b+4) LD_ENS(b+5) LD_ENS(b+6) LD_ENS(b+7)
-    LD_ENS8(0) LD_ENS8(8) LD_ENS8(16) LD_ENS8(24);
+    __CPROVER_ensures(__CPROVER_return_value != POLYSEED_OK || (spec_shape_v(*data) && data->checksum < 2048))
+    __CPROVER_ensures(__CPROVER_return_value != POLYSEED_OK || spec_image_matches(*data, storage));
 
 #endif
